@@ -186,3 +186,121 @@ PENDING = {
 
 NOT_APPLICABLE = {}
 HOOK_COMMITS = ["9c71e4cac", "fc646e211"]
+
+PENDING.update({
+    "C02": dict(
+        category="exploration",
+        technique="differential + reference-model monitor: compiled executable (single-file `-o`, multi-file `-C`) vs interpreter vs Python model over generated programs with random btree/brie/eqrel representations",
+        text=("Generated programs with random brie / btree / eqrel qualifiers are evaluated by the interpreter, by the executable souffle -o "
+              "builds (generated C++ compiled with the tree's own compiler wrapper, sometimes -j4) and, for a third, by souffle -C "
+              "(multi-file); all output relations must agree with each other and with the reference model. Since the interpreter "
+              "stores every non-eqrel relation in a B-tree, this is where brie is really exercised at program level."),
+        note="compile-bound: tens of programs per quick run, hundreds thorough; trusts the reference model",
+        design="6 C02",
+    ),
+    "C09": dict(
+        category="exploration",
+        technique="trace monitor: debug_delta twins report the iteration of every tuple, compared with a naive Jacobi fixpoint model; guarded hook counts head insertions per relation and iteration, compared with the model's count of body combinations containing a new tuple",
+        text=("Recursive generated programs plus long-chain closures: (a) the (tuple, iteration) pairs souffle reports equal the naive rounds "
+              "exactly with optimisations off, and in the default pipeline every naive tuple is found exactly once and not earlier "
+              "than its naive round, the loop stopping at the naive fixpoint; (b) with AST optimisations and If/IfExists conversion "
+              "off, the number of times the rule versions of R reach the head in iteration k equals N(S_k) - N(S_k - D_k): every "
+              "combination with a new tuple is considered exactly once."),
+        note="interpreter only, -j1; counts are per target relation and iteration (all versions of all rules together)",
+        design="6 C09",
+    ),
+    "C16": dict(
+        category="exploration",
+        technique="differential monitor: generated flat program vs its componentised twin (type parameters, inheritance, overridable + decoy rules, nesting, second instances, shadowing), outputs compared under the instantiated names",
+        text=("The derived relations of a generated program are distributed over 1-3 components with random type parameters, inheritance, "
+              "overrides (base rules are decoys that would add tuples), nesting, second instantiations and shadowed globals; every "
+              "P.r.csv of the componentised program must equal r.csv of the flat program."),
+        note="the flat twin is run by souffle itself; interpreter only; features are those the wrapper generates",
+        design="6 C16",
+    ),
+    "C17": dict(
+        category="exploration",
+        technique="round-trip monitor end-to-end through the binary: writer program -> file -> reader program that compares with the same facts and reports |r|, |missing|, |extra| as numbers; failing cases are minimised to one tuple / one column before the key is built",
+        text=("Random signatures (number, unsigned, float, symbol, record, recursive list, ADT) x boundary values x tab / custom delimiter / "
+              "RFC 4180 (with headers, gzip), JSON list/object, SQLite: what program B reads back must be exactly what program A wrote. "
+              "Five defects repaired (RFC 4180 quotes, JSON float read and write, SQLite float read), two recorded (ADT columns in JSON "
+              "and SQLite)."),
+        note="values enter through fact constants in program text; nested symbols avoid the text formats' structural characters; no inf/NaN",
+        design="6 C17",
+    ),
+    "C18": dict(
+        category="exploration",
+        technique="acceptance monitor with an exact classifier (big-integer / binary32 arithmetic): fields of fact files and numeric constants are VALID / INVALID / OPEN; exit status, error text (file + line) and the echoed stored value are checked; byte-mutated fact files must not crash",
+        text=("Per column type, literals around every boundary (+-2^31, 2^32-1, 2^32, 2^64, FLT_MAX, 1e39), signs, prefixes, blanks, garbage, "
+              "empty fields, missing columns, CRLF: VALID loads and stores the denoted value, INVALID exits 1 naming file and line, "
+              "OPEN forms may go either way but must store what they denote; the same literals as program constants; random bytes "
+              "never crash the loader. Four defects repaired."),
+        note="the literal grammars and abstention classes are those of props/c18.py classify()",
+        design="6 C18",
+    ),
+    "C21": dict(
+        category="exploration",
+        technique="API trace monitor: a generic C++ driver (generated code + __EMBEDDED_SOUFFLE__) executes a script of insert / run / iterate / size / contains / purge / loadAll calls and logs every return; the log is checked against the file-based run",
+        text=("For generated programs over primitive columns: tuples inserted through the API and run() give the relations of the file-based "
+              "run; size() equals the iterated count; contains() is true exactly for iterated tuples; after purge everything is empty; "
+              "re-inserting (or loadAll) and running again reproduces the result."),
+        note="compile-bound; primitive column types only",
+        design="6 C21",
+    ),
+    "C24": dict(
+        category="exploration",
+        technique="table-driven reference monitor: every intrinsic operator x overload on boundary x boundary + random operands from fact files and as constants; interpreter vs Python reference; a compiled sample vs the same reference",
+        text=("~110 operator/overload entries (arithmetic, bitwise, logical, shifts, comparisons, min/max, conversions, as(), string "
+              "functors) evaluated on 40-120 argument tuples each per program, undefined argument tuples left out; every result must equal "
+              "the reference (two's complement, mod 2^32, truncating division, masked shifts, binary32, byte strings)."),
+        note="float ^, ord, float to_string and non-literal regular expressions are not compared; unsigned ^ beyond 2^32 is treated as outside the domain",
+        design="6 C24",
+    ),
+    "C25": dict(
+        category="exploration",
+        technique="cooperative serial scheduler (pre-emption at every load/store/edge of BTree.h) + exactly-once / union / sorted-set-model checkers over recorded insert histories; free-running threads under TSan and ASan+UBSan",
+        text=("2-4 threads insert random / sorted / reverse / duplicate-heavy / disjoint sequences with and without hints into real btree_sets "
+              "with 3-key nodes (int and tuple keys, linear and binary search) and default nodes; afterwards exactly one success per key, "
+              "ascending iteration = union, check(), size, contains, find, bounds and getChunks agree with std::set."),
+        note="trusts: the scheduler runtime, x86-TSO; random rather than exhaustive schedules",
+        design="6 C25",
+    ),
+    "C26": dict(
+        category="exploration",
+        technique="model-based monitor: random insert / erase(key) / erase(iterator) / query histories on the real btree_delete_set against std::set, step by step; parallel insert phases under the serial scheduler; ASan+UBSan flavour",
+        text=("Up to 200 operations per history on 3-key nodes (merge / rebalance / root collapse constantly), small and 2^31 key ranges; every "
+              "result, the iterator after erase(iterator), bounds, ascending iteration, size and check() agree with the model; phases "
+              "insert(parallel) -> erase -> insert(parallel) keep the concurrent-insert guarantees."),
+        note="erasure is sequential, hints are renewed after every erase (as souffle does)",
+        design="6 C26",
+    ),
+    "C27": dict(
+        category="exploration",
+        technique="cooperative serial scheduler (pre-emption at every load/store/edge of Brie.h) + exactly-once / set-model checkers (iteration, contains, find, prefix ranges for every prefix length, partition); free-running threads under TSan and ASan+UBSan",
+        text=("2-4 threads insert tuples of arity 1-4 from a shared pool (dense, sparse, negative, extreme values) into a real Trie; afterwards "
+              "one success per tuple, iteration = union exactly once, size, contains, find, getBoundaries<0..Dim>, partition agree with "
+              "std::set. Two defects repaired (child index computed from a 32-bit truncation of the key: sequential corruption with "
+              "negative values; 66-bit shift)."),
+        note="Brie's CAS-locked root/first records are written with plain stores: TSan write/write reports inside tryUpdateRootInfo / tryUpdateFirstInfo are diagnostics",
+        design="6 C27",
+    ),
+    "C28": dict(
+        category="exploration",
+        technique="model-based monitor: histories of insert / insertAll / extendAndInsert / clear with parallel insert phases (serial scheduler) on two real EquivalenceRelation objects against a union-find closure model",
+        text=("contains, size = sum of squared class sizes, full / per-element / per-pair iteration, getBoundaries<1,2> and partition agree with "
+              "the closure at random points (so stale caches show) and at the end; small, negative and extreme values."),
+        note="queries at quiescent points only; sits on the repaired union-find (C29)",
+        design="6 C28",
+    ),
+    "C31": dict(
+        category="exploration",
+        technique="cooperative serial scheduler on ConcurrentFlyweight with explicit lanes (lane mutexes interposed) + bijection checker over all returns of all threads; SymbolTableImpl / RecordTable inside OpenMP regions under TSan and ASan+UBSan",
+        text=("Equal values always get one reference, different values different ones; fetch/decode/unpack right after the call and after growth "
+              "return the value; inserted==true exactly once per value; reserved index / nil never returned; iteration lists each value "
+              "once - with initial capacity 1-8 so that the table grows constantly."),
+        note="symbol and record tables take their lane from the OpenMP thread number: free-running only",
+        design="6 C31",
+    ),
+})
+CLAIMED.update(PENDING)
+HOOK_COMMITS = ["9c71e4cac", "fc646e211"]
